@@ -30,9 +30,11 @@ Wait ==
             /\ expiry' = IF "drift" \in Dev THEN now' + P ELSE expiry + P
             /\ err' = FALSE /\ UNCHANGED <<made, t0, P, freed>>
 Free == made /\ freed' = TRUE /\ err' = FALSE /\ UNCHANGED <<now, made, t0, P, k, expiry, lastRet>>
+\* entering the with-block (possibly long after construction) changes nothing: the grid is anchored at construction
+Enter == made /\ err' = FALSE /\ UNCHANGED <<now, made, t0, P, k, expiry, freed, lastRet>>
 
-EvEnabled(ev) == CASE ev.e = "new" -> ~made [] ev.e = "body" -> TRUE [] ev.e \in {"wait", "free"} -> made [] OTHER -> FALSE
-EvNext(ev) == CASE ev.e = "new" -> New(ev.p) [] ev.e = "body" -> Body(ev.b) [] ev.e = "wait" -> Wait [] ev.e = "free" -> Free
+EvEnabled(ev) == CASE ev.e = "new" -> ~made [] ev.e = "body" -> TRUE [] ev.e \in {"wait", "free", "enter"} -> made [] OTHER -> FALSE
+EvNext(ev) == CASE ev.e = "new" -> New(ev.p) [] ev.e = "body" -> Body(ev.b) [] ev.e = "wait" -> Wait [] ev.e = "free" -> Free [] ev.e = "enter" -> Enter
 
 Live == IF made /\ ~freed THEN 1 ELSE 0      \* HAL notifiers held
 NextAlarm == IF made /\ ~freed THEN expiry ELSE -1
